@@ -16,8 +16,8 @@
 #define MAXTHREADS 16
 #define MAXOPS 48
 #define NSHARED 10
-enum { K_PRIVATE, K_SHARED_SRC, K_WIDE, K_FILL, K_REGION, K_TRAPS, K_GLYPHS, K_BLT, K_NKINDS };
-static const char *kname[] = { "composite-private-images", "composite-shared-source", "composite-long-scanline", "fill_boxes", "region-algebra", "trapezoids", "glyphs", "blt-fill" };
+enum { K_PRIVATE, K_SHARED_SRC, K_WIDE, K_FILL, K_REGION, K_TRAPS, K_GLYPHS, K_BLT, K_FILTER, K_NKINDS };
+static const char *kname[] = { "composite-private-images", "composite-shared-source", "composite-long-scanline", "fill_boxes", "region-algebra", "trapezoids-triangles", "glyphs", "blt-fill", "filter-tables-matrix" };
 
 typedef struct { int tid, nops; uint64_t seed; uint64_t dig[MAXOPS]; uint8_t kind[MAXOPS]; char what[MAXOPS][40]; long pixels; } stream_t;
 static stream_t serial[MAXTHREADS], conc[MAXTHREADS];
@@ -53,8 +53,8 @@ static void random_region (vf_rng *r, pixman_region32_t *out)
 /* one call of a stream; returns the digest of what the call produced */
 static uint64_t one_op (stream_t *s, int i, vf_rng *r)
 {
-    int k = (int)(vf_next (r) % 16);
-    int kind = k < 3 ? K_PRIVATE : k < 7 ? K_SHARED_SRC : k < 9 ? K_WIDE : k == 9 ? K_FILL : k < 12 ? K_REGION : k < 14 ? K_TRAPS : k == 14 ? K_GLYPHS : K_BLT;
+    int k = (int)(vf_next (r) % 18);
+    int kind = k >= 16 ? K_FILTER : k < 3 ? K_PRIVATE : k < 7 ? K_SHARED_SRC : k < 9 ? K_WIDE : k == 9 ? K_FILL : k < 12 ? K_REGION : k < 14 ? K_TRAPS : k == 14 ? K_GLYPHS : K_BLT;
     s->kind[i] = (uint8_t)kind; uint64_t d = 0;
     switch (kind) {
     case K_PRIVATE: case K_SHARED_SRC: {
@@ -105,7 +105,19 @@ static uint64_t one_op (stream_t *s, int i, vf_rng *r)
             t[j].top = top; t[j].bottom = bot;
             t[j].left.p1.x = (pixman_fixed_t)vf_range (r, -4 * 65536, w * 65536); t[j].left.p1.y = top - (pixman_fixed_t)vf_range (r, 0, 65536); t[j].left.p2.x = (pixman_fixed_t)vf_range (r, -4 * 65536, w * 65536); t[j].left.p2.y = bot + (pixman_fixed_t)vf_range (r, 0, 65536);
             t[j].right.p1.x = t[j].left.p1.x + (pixman_fixed_t)vf_range (r, 0, 30 * 65536); t[j].right.p1.y = t[j].left.p1.y; t[j].right.p2.x = t[j].left.p2.x + (pixman_fixed_t)vf_range (r, 0, 30 * 65536); t[j].right.p2.y = t[j].left.p2.y; }
-        int how = (int)(vf_next (r) % 4);
+        int how = (int)(vf_next (r) % 6);
+        if (how >= 4) {
+            /* the triangle entry points (they convert to trapezoids first): few and many triangles */
+            pixman_triangle_t tri[14]; int ntri = vf_chance (r, 2, 3) ? (int)vf_range (r, 1, 8) : (int)vf_range (r, 9, 14);
+            for (int j = 0; j < ntri; j++) { pixman_point_fixed_t *pt[3] = { &tri[j].p1, &tri[j].p2, &tri[j].p3 }; for (int q = 0; q < 3; q++) { pt[q]->x = (pixman_fixed_t)vf_range (r, -4 * 65536, (w + 4) * 65536); pt[q]->y = (pixman_fixed_t)vf_range (r, -3 * 65536, (h + 3) * 65536); } }
+            if (how == 5 && f == PIXMAN_a8) pixman_add_triangles (dst, (int)vf_range (r, -2, 2), (int)vf_range (r, -1, 1), ntri, tri);
+            else { pixman_image_t *own = NULL, *src = vf_chance (r, 1, 2) ? shared_src (r) : NULL;
+                   if (!src) { pixman_color_t c = { (uint16_t)vf_next (r), (uint16_t)vf_next (r), (uint16_t)vf_next (r), 0xc000 }; own = src = pixman_image_create_solid_fill (&c); }
+                   pixman_op_t op = VF_PICK (r, ((pixman_op_t[]){ PIXMAN_OP_OVER, PIXMAN_OP_ADD, PIXMAN_OP_SRC }));
+                   if (src) pixman_composite_triangles (op, src, dst, VF_PICK (r, ((pixman_format_code_t[]){ PIXMAN_a8, PIXMAN_a1, PIXMAN_a4 })), (int)vf_range (r, -3, 3), (int)vf_range (r, -3, 3), (int)vf_range (r, -2, 2), 0, ntri, tri);
+                   if (own) pixman_image_unref (own); }
+            snprintf (s->what[i], 40, "triangles how=%d n=%d", how, ntri); d = image_digest (dst); s->pixels += (long)w * h; pixman_image_unref (dst); break;
+        }
         if (how == 0 && f == PIXMAN_a8) { for (int j = 0; j < nt; j++) pixman_rasterize_trapezoid (dst, &t[j], (int)vf_range (r, -2, 2), 0); }
         else { pixman_image_t *own = NULL, *src = vf_chance (r, 3, 4) ? shared_src (r) : NULL;
                if (!src) { pixman_color_t c = { (uint16_t)vf_next (r), (uint16_t)vf_next (r), (uint16_t)vf_next (r), 0xffff }; own = src = pixman_image_create_solid_fill (&c); }
@@ -128,6 +140,24 @@ static uint64_t one_op (stream_t *s, int i, vf_rng *r)
                   else pixman_composite_glyphs (op, src, dst, pixman_glyph_get_mask_format (c, ng, g), 1, 2, 0, 0, 0, 0, pixman_image_get_width (dst), pixman_image_get_height (dst), c, ng, g); }
         pixman_glyph_cache_thaw (c); snprintf (s->what[i], 40, "glyphs n=%d %s", ng, ro_op_name (op));
         d = image_digest (dst); s->pixels += 300; pixman_image_unref (dst); pixman_glyph_cache_destroy (c); if (own) pixman_image_unref (own); break; }
+    case K_FILTER: {
+        /* calls that only compute: filter tables, matrix arithmetic; then the table used on a private image */
+        static const pixman_kernel_t ks[] = { PIXMAN_KERNEL_IMPULSE, PIXMAN_KERNEL_BOX, PIXMAN_KERNEL_LINEAR, PIXMAN_KERNEL_CUBIC, PIXMAN_KERNEL_GAUSSIAN, PIXMAN_KERNEL_LANCZOS2 };
+        int n = 0; pixman_fixed_t sx = (pixman_fixed_t)vf_range (r, 0x6000, 0x38000), sy = vf_chance (r, 1, 2) ? sx + (pixman_fixed_t)vf_range (r, -1, 1) : (pixman_fixed_t)vf_range (r, 0x6000, 0x38000);
+        pixman_kernel_t k1 = VF_PICK (r, ks), k2 = VF_PICK (r, ks);
+        pixman_fixed_t *p = pixman_filter_create_separable_convolution (&n, sx, sy, k1, vf_chance (r, 1, 2) ? k1 : VF_PICK (r, ks), k2, vf_chance (r, 1, 2) ? k2 : VF_PICK (r, ks), (int)vf_range (r, 0, 3), (int)vf_range (r, 0, 3));
+        if (!p) return 1;
+        d = vf_hash (p, (size_t)n * sizeof *p, (uint64_t)n);
+        pixman_transform_t t, inv; pixman_transform_init_scale (&t, sx, sy); pixman_transform_rotate (&t, &inv, (pixman_fixed_t)vf_range (r, -65536, 65536), (pixman_fixed_t)vf_range (r, -65536, 65536));
+        pixman_vector_t v = { { (pixman_fixed_t)vf_range (r, -30 * 65536, 30 * 65536), (pixman_fixed_t)vf_range (r, -30 * 65536, 30 * 65536), 65536 } }; pixman_bool_t okp = pixman_transform_point (&t, &v), oki = pixman_transform_invert (&inv, &t);
+        d = vf_hash (&v, sizeof v, d) ^ vf_hash (&inv, sizeof inv, (uint64_t)(okp * 2 + oki));
+        pixman_image_t *src = pixman_image_create_bits (PIXMAN_a8r8g8b8, 12, 9, NULL, 0), *dst = pixman_image_create_bits (PIXMAN_a8r8g8b8, 16, 6, NULL, 0);
+        if (src && dst) { uint32_t *q = pixman_image_get_data (src); for (int j = 0; j < 12 * 9; j++) q[j] = vf_u32 (r) | 0xff000000u;
+            pixman_transform_init_scale (&t, sx < 0 ? -sx : sx, sy < 0 ? -sy : sy); pixman_image_set_transform (src, &t); pixman_image_set_repeat (src, PIXMAN_REPEAT_PAD);
+            if (n <= 4 + 400 && pixman_image_set_filter (src, PIXMAN_FILTER_SEPARABLE_CONVOLUTION, p, n)) pixman_image_composite32 (PIXMAN_OP_SRC, src, NULL, dst, 0, 0, 0, 0, 0, 0, 16, 6);
+            d ^= image_digest (dst); }
+        if (src) pixman_image_unref (src); if (dst) pixman_image_unref (dst);
+        free (p); snprintf (s->what[i], 40, "filter table n=%d", n); s->pixels += 100; break; }
     default: {
         int w = (int)vf_range (r, 1, 120), h = (int)vf_range (r, 1, 6), bpp = VF_PICK (r, ((int[]){ 8, 16, 32 })); int stride = (w * bpp / 8 + 3) / 4;
         uint32_t *a = malloc ((size_t)stride * 4 * h), *b = malloc ((size_t)stride * 4 * h); if (!a || !b) { free (a); free (b); return 1; }
